@@ -453,3 +453,204 @@ def summary_channel_dim_choi(d_in, d_out):
         return (list(d_in), list(d_out), None)
 
     return summary
+
+
+# ---------------------------------------------------------------------------------------------
+# channel application (bilinear: entries are sums of products of input entries)
+# ---------------------------------------------------------------------------------------------
+def spec_apply_choi(X, J, pr, pc):
+    """apply_channel(X, J) for a Choi matrix J = sum_{r,c} E_rc (x) Phi(E_rc), X of shape (mr, mc), Phi(E_rc) of shape (pr, pc):
+       result[p, j] == sum_{r < mr, c < mc}  X[r, c] * J[(r, p), (c, j)]          (first tensor factor = input space, major)"""
+    from vt.pyvc import bilinear as BL
+
+    mr, mc = X.shape
+
+    def g(idx):
+        W = sym.world()
+        r = W.fresh_digit("r", mr)
+        c = W.fresh_digit("c", mc)
+        p, j = as_num(idx[0], pr), as_num(idx[1], pc)
+        row = Num(list(p.terms) + [(r, mr)])
+        col = Num(list(j.terms) + [(c, mc)])
+        body = BL.p_mul(X.get((Num([(r, mr)]), Num([(c, mc)]))), J.get((row, col)))
+        return BL.Poly([BL.Term(t.coef, t.factors, t.deltas, list(t.bound) + [(r, mr), (c, mc)]) for t in body.terms])
+
+    return SymArray((pr, pc), g, "poly")
+
+
+def spec_apply_kraus(X, lefts, rights):
+    """apply_channel(X, Kraus): result[p, j] == sum_i sum_{r, c}  A_i[p, r] * X[r, c] * conj(B_i[j, c])   (B_i = A_i when one list is given)"""
+    from vt.pyvc import bilinear as BL
+
+    mr, mc = X.shape
+    pr, pc = lefts[0].shape[0], rights[0].shape[0]
+
+    def g(idx):
+        W = sym.world()
+        out = None
+        for A, B in zip(lefts, rights):
+            r = W.fresh_digit("r", mr)
+            c = W.fresh_digit("c", mc)
+            rn, cn = Num([(r, mr)]), Num([(c, mc)])
+            body = BL.p_mul(BL.p_mul(A.get((idx[0], rn)), X.get((rn, cn))), BL.p_conj(B.get((idx[1], cn))))
+            t = BL.Poly([BL.Term(t.coef, t.factors, t.deltas, list(t.bound) + [(r, mr), (c, mc)]) for t in body.terms])
+            out = t if out is None else BL.p_add(out, t)
+        return out
+
+    return SymArray((pr, pc), g, "poly")
+
+
+def summary_apply_channel(interp, args, kw):
+    """call-site contract of apply_channel: Kraus forms (flat list / list of [A, B] pairs) and Choi matrices"""
+    X, phi = args[0], args[1]
+    if isinstance(phi, list):
+        if not phi:
+            raise Unsupported("apply_channel with an empty Kraus list")
+        if isinstance(phi[0], SymArray):
+            lefts, rights = list(phi), list(phi)
+        elif isinstance(phi[0], (list, tuple)) and len(phi[0]) == 2 and all(isinstance(p[0], SymArray) and isinstance(p[1], SymArray) for p in phi):
+            lefts, rights = [p[0] for p in phi], [p[1] for p in phi]
+        else:
+            raise Unsupported("apply_channel contract: nested Kraus form")
+        ok = sp.And(*[sp.Eq(A.shape[1], X.shape[0]) for A in lefts], *[sp.Eq(B.shape[1], X.shape[1]) for B in rights])
+        pre(interp, "apply_channel: A_i has as many columns as X has rows, B_i as many columns as X has columns", ok)
+        return spec_apply_kraus(X, lefts, rights)
+    if isinstance(phi, SymArray):
+        pr, pc = sp.cancel(phi.shape[0] / X.shape[0]), sp.cancel(phi.shape[1] / X.shape[1])
+        pre(interp, "apply_channel: the Choi matrix dimensions are multiples of the operand's", sp.denom(pr) == 1 and sp.denom(pc) == 1)
+        return spec_apply_choi(X, phi, pr, pc)
+    raise Unsupported("apply_channel contract: representation %s" % type(phi).__name__)
+
+
+def spec_partial_kraus(rho, lefts, rights, rows, cols):
+    """partial_channel(rho, Kraus, sys, dim) == (id (x) Phi (x) id)(rho):  rows = (before, m, after) row dimensions of rho's three blocks
+    (the factors before the target, the target, the factors after it), cols likewise for the columns;
+       result[(a, p, b), (a', p', b')] == sum_i sum_{r, c} A_i[p, r] * rho[(a, r, b), (a', c, b')] * conj(B_i[p', c])"""
+    from vt.pyvc import bilinear as BL
+
+    (r1, mr, r2), (c1, mc, c2) = rows, cols
+    pr, pc = lefts[0].shape[0], rights[0].shape[0]
+
+    def g(idx):
+        W = sym.world()
+        b, p, a = unflatten(as_num(idx[0], r1 * pr * r2), [r2, pr, r1], "F")
+        b2, p2, a2 = unflatten(as_num(idx[1], c1 * pc * c2), [c2, pc, c1], "F")
+        out = None
+        for A, B in zip(lefts, rights):
+            r = W.fresh_digit("r", mr)
+            c = W.fresh_digit("c", mc)
+            rn, cn = Num([(r, mr)]), Num([(c, mc)])
+            row = Num(list(b.terms) + [(r, mr)] + list(a.terms))
+            col = Num(list(b2.terms) + [(c, mc)] + list(a2.terms))
+            body = BL.p_mul(BL.p_mul(A.get((p, rn)), rho.get((row, col))), BL.p_conj(B.get((p2, cn))))
+            t = BL.Poly([BL.Term(t.coef, t.factors, t.deltas, list(t.bound) + [(r, mr), (c, mc)]) for t in body.terms])
+            out = t if out is None else BL.p_add(out, t)
+        return out
+
+    return SymArray((r1 * pr * r2, c1 * pc * c2), g, "poly")
+
+
+def spec_natural_representation(ks):
+    """natural_representation(K): N[(p, q), (r, s)] == sum_i K_i[p, r] * conj(K_i[q, s])"""
+    from vt.pyvc import bilinear as BL
+
+    dr, dc = ks[0].shape
+
+    def g(idx):
+        q, p = unflatten(as_num(idx[0], dr * dr), [dr, dr], "F")
+        s, r = unflatten(as_num(idx[1], dc * dc), [dc, dc], "F")
+        out = None
+        for K in ks:
+            t = BL.p_mul(K.get((p, r)), BL.p_conj(K.get((q, s))))
+            out = t if out is None else BL.p_add(out, t)
+        return out
+
+    return SymArray((dr * dr, dc * dc), g, "poly")
+
+
+def summary_tensor2(interp, args, kw):
+    """tensor(A, B) for two arrays is np.kron(A, B) (proved for the real tensor() in C16's integer-engine obligations)"""
+    from vt.pyvc import bilinear as BL
+
+    if len(args) == 2 and all(isinstance(a, SymArray) for a in args):
+        pre(interp, "tensor: two array arguments", True)
+        return BL.kron(args[0], args[1])
+    raise Unsupported("tensor contract: only the two-array form")
+
+
+def spec_partial_choi(rho, J, rows, cols):
+    """partial_channel(rho, J, sys, dim) for a Choi matrix J:  rows = (before, m, after) as in spec_partial_kraus;
+       result[(a, p, b), (a', p', b')] == sum_{r, c} rho[(a, r, b), (a', c, b')] * J[(r, p), (c, p')]"""
+    from vt.pyvc import bilinear as BL
+
+    (r1, mr, r2), (c1, mc, c2) = rows, cols
+    pr, pc = sp.cancel(J.shape[0] / mr), sp.cancel(J.shape[1] / mc)
+
+    def g(idx):
+        W = sym.world()
+        b, p, a = unflatten(as_num(idx[0], r1 * pr * r2), [r2, pr, r1], "F")
+        b2, p2, a2 = unflatten(as_num(idx[1], c1 * pc * c2), [c2, pc, c1], "F")
+        r = W.fresh_digit("r", mr)
+        c = W.fresh_digit("c", mc)
+        row = Num(list(b.terms) + [(r, mr)] + list(a.terms))
+        col = Num(list(b2.terms) + [(c, mc)] + list(a2.terms))
+        body = BL.p_mul(rho.get((row, col)), J.get((Num(list(p.terms) + [(r, mr)]), Num(list(p2.terms) + [(c, mc)]))))
+        return BL.Poly([BL.Term(t.coef, t.factors, t.deltas, list(t.bound) + [(r, mr), (c, mc)]) for t in body.terms])
+
+    return SymArray((r1 * pr * r2, c1 * pc * c2), g, "poly")
+
+
+def _blocks(row, sysn):
+    row = list(row)
+    return (_prod(row[: sysn - 1]), sp.sympify(row[sysn - 1]), _prod(row[sysn:]))
+
+
+def summary_partial_channel(interp, args, kw):
+    """call-site contract of partial_channel(rho, phi_map, sys, dim) with dim given (a list or a two-row array of per-factor dimensions)"""
+    a = bind(["rho", "phi_map", "sys", "dim"], {"sys": 2, "dim": None}, args, kw)
+    rho, phi, sysn, dim = a["rho"], a["phi_map"], a["sys"], a["dim"]
+    if dim is None or not isinstance(rho, SymArray):
+        raise Unsupported("partial_channel contract: dim omitted")
+    d = np.asarray(dim, dtype=object)
+    if d.ndim == 1:
+        d = np.array([list(d), list(d)], dtype=object)
+    sysn = int(sysn)
+    pre(interp, "partial_channel: 1 <= sys <= number of factors", 1 <= sysn <= d.shape[1])
+    rows, cols = _blocks(d[0], sysn), _blocks(d[1], sysn)
+    pre(interp, "partial_channel: prod(dim rows) == rho.shape", sp.And(sp.Eq(_prod(d[0]), rho.shape[0]), sp.Eq(_prod(d[1]), rho.shape[1])) if not (same(_prod(d[0]), rho.shape[0]) and same(_prod(d[1]), rho.shape[1])) else True)
+    if isinstance(phi, SymArray):
+        return spec_partial_choi(rho, phi, rows, cols)
+    if isinstance(phi, list) and phi and isinstance(phi[0], SymArray):
+        lefts = rights = list(phi)
+    elif isinstance(phi, list) and phi and isinstance(phi[0], (list, tuple)) and len(phi[0]) == 2 and all(isinstance(p[0], SymArray) and isinstance(p[1], SymArray) for p in phi):
+        lefts, rights = [p[0] for p in phi], [p[1] for p in phi]
+    elif isinstance(phi, list) and phi and isinstance(phi[0], (list, tuple)) and (len(phi[0]) == 1 or (len(phi) == 1 and len(phi[0]) > 2)):
+        lefts = rights = [k for grp in phi for k in grp]
+    else:
+        raise Unsupported("partial_channel contract: representation")
+    pre(interp, "partial_channel: A_i columns == target row dimension, B_i columns == target column dimension", sp.And(*[sp.Eq(A.shape[1], rows[1]) for A in lefts], *[sp.Eq(B.shape[1], cols[1]) for B in rights]))
+    return spec_partial_kraus(rho, lefts, rights, rows, cols)
+
+
+def spec_kraus_to_choi(lefts, rights, sysn=2):
+    """kraus_to_choi: J == sum_{r,c} E_rc (x) Phi(E_rc) (sys=2; the factors exchanged for sys=1), i.e.
+       J[(r, p), (c, j)] == sum_i A_i[p, r] * conj(B_i[j, c])"""
+    from vt.pyvc import bilinear as BL
+
+    pr, mr = lefts[0].shape
+    pc, mc = rights[0].shape
+
+    def g(idx):
+        if sysn == 2:
+            p, r = unflatten(as_num(idx[0], mr * pr), [pr, mr], "F")
+            j, c = unflatten(as_num(idx[1], mc * pc), [pc, mc], "F")
+        else:
+            r, p = unflatten(as_num(idx[0], mr * pr), [mr, pr], "F")
+            c, j = unflatten(as_num(idx[1], mc * pc), [mc, pc], "F")
+        out = None
+        for A, B in zip(lefts, rights):
+            t = BL.p_mul(A.get((p, r)), BL.p_conj(B.get((j, c))))
+            out = t if out is None else BL.p_add(out, t)
+        return out
+
+    return SymArray((mr * pr, mc * pc), g, "poly")
